@@ -268,11 +268,15 @@ def main(argv=None):
             harness_errors.append(f"{r['key']}: no obligation reached (vacuous harness)")
         undefined_paths = {tuple(x["path"]) for x in r["records"] if x["name"] == "__vacuity__" and x["verdict"] == "undefined-path"}
         n_undefined += len(undefined_paths)
+        vac = [x for x in r["records"] if x["name"] == "__vacuity__"]
+        if vac and all(x["verdict"] == "vacuous" for x in vac):
+            harness_errors.append(f"{r['key']}: assumptions unsatisfiable on every path (vacuous harness)")
+        vacuous_paths = {tuple(x["path"]) for x in vac if x["verdict"] == "vacuous"}
         for x in r["records"]:
             if x["name"] == "__vacuity__":
-                if x["verdict"] == "vacuous":
-                    harness_errors.append(f"{r['key']}: assumptions unsatisfiable on path {x['path']}")
                 continue
+            if tuple(x["path"]) in vacuous_paths:
+                continue  # infeasible path explored because its feasibility query was undecided: nothing holds or fails there
             if tuple(x["path"]) in undefined_paths:
                 continue  # the code divides by zero on this whole path: outside the claim
             n_obl += 1
